@@ -169,6 +169,14 @@ def font_case(draw):
             advs["c%d" % i] = draw(st.sampled_from([1000, 600, 1400]))
         if unsupported:
             paints["c0"] = plant_unsupported(draw, unsupported)
+        elif draw(st.sampled_from([False, False, True])):
+            # a colour glyph that is another colour glyph under a transform (how hand-made fonts build variants of a base emoji)
+            ref = draw(wrap_transform({"Format": 11, "Glyph": draw(st.sampled_from(list(paints)))}))
+            if draw(st.booleans()):
+                ref = {"Format": 1, "Layers": [{"Format": 10, "Glyph": draw(st.sampled_from(outline_names)), "Paint": draw(fill(npal))}, ref]}
+            k = "c%d" % len(paints)
+            paints[k] = ref
+            advs[k] = draw(st.sampled_from([1000, 600, 1400]))
     vbmode = draw(st.sampled_from(["region", "region", "square", "offset"]))
     comp_xf = [draw(fl(0.5, 1.2)), 0, 0, draw(fl(0.5, 1.2)), draw(ints(-100, 200)), draw(ints(-100, 200))]
     return {"version": version, "npal": npal, "paints": paints, "advs": advs, "vbmode": vbmode, "comp": comp_xf, "unsupported": unsupported}
